@@ -5,6 +5,9 @@ CONSTANTS
   TA = 21600
   MaxT = 600000
   TickSteps = {250, 500, 21000}
+  LifeEvents = TRUE
+  KeepAlive = 300
+  ClearWhen = "always"
   DupMode = "ignore"
   ClearFirst = TRUE
 INVARIANTS EveryAnnouncementAccepted DetectorOutlivesStation SessionMatchesRegistration ClearEmpties
